@@ -167,6 +167,139 @@ Definition rec_unmarshal (st : avcrec) (data : bytes) : avcrec * res unit :=
   | _, _, _, _, _, _ => (st, Panic 10)
   end.
 
+(* ---- histories on several objects ----
+   A NALU, a configuration record and a sample are plain values: UnmarshalBinary stores what it
+   parsed in the fields, the caller may assign the fields (header fields, Data, the parameter-set
+   and NALU lists and their elements), MarshalBinary writes the CURRENT field values into a fresh
+   result.  Objects do not share anything; results are values that later calls cannot change
+   (the harness keeps every returned slice and re-reads it after the last operation). *)
+Inductive avc_obj : Type :=
+| ONalu (n : nalu)
+| ORec (r : avcrec)
+| OSample (l : N) (ns : list nalu).
+
+Definition obj_marshal (v : avc_obj) : bytes :=
+  match v with
+  | ONalu n => nalu_marshal n
+  | ORec r => rec_marshal r
+  | OSample l ns => sample_marshal l ns
+  end.
+
+Definition slots := list (N * avc_obj).
+Fixpoint slot_get (s : slots) (k : N) : option avc_obj :=
+  match s with
+  | [] => None
+  | (k', v) :: t => if k' =? k then Some v else slot_get t k
+  end.
+Fixpoint slot_set (s : slots) (k : N) (v : avc_obj) : slots :=
+  match s with
+  | [] => [(k, v)]
+  | (k', v') :: t => if k' =? k then (k, v) :: t else (k', v') :: slot_set t k v
+  end.
+
+Fixpoint list_set {A} (l : list A) (i : nat) (x : A) : list A :=
+  match l, i with
+  | [], _ => []
+  | _ :: t, O => x :: t
+  | y :: t, S i' => y :: list_set t i' x
+  end.
+
+Inductive avc_op : Type :=
+| ANew (k kind arg : N)                      (* kind 0 NewAVCDecoderConfigurationRecord, 1 NewAVCSample(arg), 2 NewNALU *)
+| AUnmarshal (k : N) (data : bytes)
+| AMarshal (k : N)
+| ASetNalu (k : N) (n : nalu)                 (* a NALU object: assign NALRefIDC, NALUType, Data *)
+| ASetElem (k which : N) (idx : nat) (n : nalu)   (* assign the fields of the idx-th unit of list [which] (0 SPS / NALUs, 1 PPS) *)
+| AAppend (k which : N) (n : nalu)
+| AClear (k which : N)
+| ASetScalars (k ver prof compat level lsm1 : N)  (* record: the five scalar fields; sample: lengthSizeMinusOne *)
+| AMarshal2 (k1 k2 : N).                     (* MarshalBinary of two objects (concurrently in the implementation) *)
+
+(* the pure field updates *)
+Definition obj_update (v : avc_obj) (op : avc_op) : option avc_obj :=
+  match op, v with
+  | ASetNalu _ n, ONalu _ => Some (ONalu n)
+  | ASetElem _ which idx n, ORec r =>
+      Some (ORec (if which =? 0
+                  then mk_rec (r_ver r) (r_prof r) (r_compat r) (r_level r) (r_lsm1 r) (list_set (r_sps r) idx n) (r_pps r)
+                  else mk_rec (r_ver r) (r_prof r) (r_compat r) (r_level r) (r_lsm1 r) (r_sps r) (list_set (r_pps r) idx n)))
+  | ASetElem _ _ idx n, OSample l ns => Some (OSample l (list_set ns idx n))
+  | AAppend _ which n, ORec r =>
+      Some (ORec (if which =? 0
+                  then mk_rec (r_ver r) (r_prof r) (r_compat r) (r_level r) (r_lsm1 r) (r_sps r ++ [n]) (r_pps r)
+                  else mk_rec (r_ver r) (r_prof r) (r_compat r) (r_level r) (r_lsm1 r) (r_sps r) (r_pps r ++ [n])))
+  | AAppend _ _ n, OSample l ns => Some (OSample l (ns ++ [n]))
+  | AClear _ which, ORec r =>
+      Some (ORec (if which =? 0
+                  then mk_rec (r_ver r) (r_prof r) (r_compat r) (r_level r) (r_lsm1 r) [] (r_pps r)
+                  else mk_rec (r_ver r) (r_prof r) (r_compat r) (r_level r) (r_lsm1 r) (r_sps r) []))
+  | AClear _ _, OSample l _ => Some (OSample l [])
+  | ASetScalars _ ver prof compat level lsm1, ORec r => Some (ORec (mk_rec ver prof compat level lsm1 (r_sps r) (r_pps r)))
+  | ASetScalars _ _ _ _ _ lsm1, OSample _ ns => Some (OSample lsm1 ns)
+  | _, _ => None
+  end.
+
+Definition op_slot (op : avc_op) : N :=
+  match op with
+  | ANew k _ _ | AUnmarshal k _ | AMarshal k | ASetNalu k _ | ASetElem k _ _ _ | AAppend k _ _ | AClear k _
+  | ASetScalars k _ _ _ _ _ | AMarshal2 k _ => k
+  end.
+
+Definition s_nalu0 (n : nalu) : sx := SL [SZ (Z.of_N (nref n)); SZ (Z.of_N (ntype n)); SB (ndata n)].
+
+(* one operation: the slots afterwards and the observation *)
+Definition avc_step (s : slots) (op : avc_op) : slots * sx :=
+  match op with
+  | ANew k kind arg =>
+      let v := if kind =? 0 then ORec (mk_rec 1 0 0 0 0 [] [])
+               else if kind =? 1 then OSample arg [] else ONalu (mk_nalu 0 0 []) in
+      (slot_set s k v, SL [SZ 0])
+  | AUnmarshal k data =>
+      match slot_get s k with
+      | Some (ONalu n) =>
+          match nalu_unmarshal data with
+          | Ok n' => (slot_set s k (ONalu n'), SL [SZ 0; s_nalu0 n'])
+          | Err e => (s, SL [SZ 1; SZ (Z.of_N e)])
+          | Panic _ => (s, SL [SZ 2])
+          end
+      | Some (ORec r) =>
+          let (r', x) := rec_unmarshal r data in
+          (slot_set s k (ORec r'),
+           match x with Ok _ => SL [SZ 0] | Err e => SL [SZ 1; SZ (Z.of_N e)] | Panic _ => SL [SZ 2] end)
+      | Some (OSample l ns) =>
+          let (ns', x) := sample_unmarshal l ns data in
+          (slot_set s k (OSample l ns'),
+           match x with Ok _ => SL [SZ 0] | Err e => SL [SZ 1; SZ (Z.of_N e)] | Panic _ => SL [SZ 2] end)
+      | None => (s, SL [SZ (-1)])
+      end
+  | AMarshal k =>
+      match slot_get s k with
+      | Some v => (s, SL [SZ 0; SB (obj_marshal v)])
+      | None => (s, SL [SZ (-1)])
+      end
+  | AMarshal2 k1 k2 =>
+      match slot_get s k1, slot_get s k2 with
+      | Some v1, Some v2 => (s, SL [SZ 0; SB (obj_marshal v1); SB (obj_marshal v2)])
+      | _, _ => (s, SL [SZ (-1)])
+      end
+  | _ =>
+      match slot_get s (op_slot op) with
+      | Some v => match obj_update v op with
+                  | Some v' => (slot_set s (op_slot op) v', SL [SZ 0])
+                  | None => (s, SL [SZ (-1)])
+                  end
+      | None => (s, SL [SZ (-1)])
+      end
+  end.
+
+Fixpoint avc_run (s : slots) (ops : list avc_op) : slots * list sx :=
+  match ops with
+  | [] => (s, [])
+  | op :: rest =>
+      let (s1, o) := avc_step s op in
+      let (s2, os) := avc_run s1 rest in (s2, o :: os)
+  end.
+
 (* ---- specification: independent ISO writers ---- *)
 (* ISO/IEC 14496-10 7.3.1: forbidden_zero_bit f(1), nal_ref_idc u(2), nal_unit_type u(5), payload *)
 Definition spec_nalu_bytes (n : nalu) : bytes :=
@@ -251,6 +384,38 @@ Definition conformant_set (b : bytes) : bool :=
 Definition str_of (r : res String.string) : sx :=
   match r with Ok s => SB (string_bytes s) | _ => s_panic end.
 
+(* case 10: a history; the final observation also lists the value of every slot (0..3) *)
+Definition p_avc_op (s : sx) : option avc_op :=
+  match s with
+  | SL [SZ 0; SZ k; SZ kind; SZ arg] => Some (ANew (Z.to_N k) (Z.to_N kind) (Z.to_N arg))
+  | SL [SZ 1; SZ k; SB data] => Some (AUnmarshal (Z.to_N k) data)
+  | SL [SZ 2; SZ k] => Some (AMarshal (Z.to_N k))
+  | SL [SZ 3; SZ k; SZ r; SZ t; SB d] => Some (ASetNalu (Z.to_N k) (mk_nalu (Z.to_N r) (Z.to_N t) d))
+  | SL [SZ 4; SZ k; SZ w; SZ i; SZ r; SZ t; SB d] =>
+      Some (ASetElem (Z.to_N k) (Z.to_N w) (Z.to_nat i) (mk_nalu (Z.to_N r) (Z.to_N t) d))
+  | SL [SZ 5; SZ k; SZ w; SZ r; SZ t; SB d] => Some (AAppend (Z.to_N k) (Z.to_N w) (mk_nalu (Z.to_N r) (Z.to_N t) d))
+  | SL [SZ 6; SZ k; SZ w] => Some (AClear (Z.to_N k) (Z.to_N w))
+  | SL [SZ 7; SZ k; SZ ver; SZ prof; SZ compat; SZ level; SZ l] =>
+      Some (ASetScalars (Z.to_N k) (Z.to_N ver) (Z.to_N prof) (Z.to_N compat) (Z.to_N level) (Z.to_N l))
+  | SL [SZ 8; SZ k1; SZ k2] => Some (AMarshal2 (Z.to_N k1) (Z.to_N k2))
+  | _ => None
+  end.
+Fixpoint p_avc_ops (l : list sx) : option (list avc_op) :=
+  match l with
+  | [] => Some []
+  | s :: t => match p_avc_op s, p_avc_ops t with
+              | Some o, Some os => Some (o :: os)
+              | _, _ => None
+              end
+  end.
+Definition obs_obj (v : option avc_obj) : sx :=
+  match v with
+  | None => SL []
+  | Some (ONalu n) => SL [SZ 2; s_nalu n]
+  | Some (ORec r) => SL (SZ 0 :: s_rec_fields r)
+  | Some (OSample l ns) => SL [SZ 1; sN l; s_nalus ns]
+  end.
+
 Definition run_c12 (c : sx) : sx :=
   match c with
   | SL [SZ 1; SB data] =>
@@ -308,6 +473,13 @@ Definition run_c12 (c : sx) : sx :=
                                              (map split_nalu sps) (map split_nalu pps)))]
           else s_ok [SB iso; d]
       | _, _ => bad_case
+      end
+  | SL [SZ 10; SL ops] =>
+      match p_avc_ops ops with
+      | Some ops =>
+          let (s, outs) := avc_run [] ops in
+          SL [SL outs; SL (map (fun k => obs_obj (slot_get s k)) [0; 1; 2; 3])]
+      | None => bad_case
       end
   | SL [SZ 9; SZ v] =>
       s_ok [str_of (avc_NALUType_String (v mod 256)%Z); str_of (avc_AVCProfile_String (v mod 65536)%Z);
